@@ -30,7 +30,7 @@ func explore(l litmus) (map[string]bool, string) {
 	var out []string
 	var bad string
 	e := &vmc.Explorer{
-		Opt:  vmc.Options{Bound: 12, MaxSteps: 5000, MaxTime: time.Hour, NoCache: true},
+		Opt:  vmc.Options{Bound: 12, MaxSteps: 5000, MaxTime: time.Hour, NoCache: os.Getenv("VMCTEST_CACHE") != "1"},
 		Body: func() { out = nil; l.body(&out) },
 		Check: func(r *vmc.Result) string {
 			want := l.end
